@@ -7,10 +7,13 @@
 package zzverifenv
 
 import (
+	"context"
 	"encoding/json"
 	"fmt"
 	"os"
+	"reflect"
 	"sync"
+	"sync/atomic"
 	"testing"
 	"time"
 )
@@ -24,11 +27,11 @@ type replayCase struct {
 }
 
 type replayState struct {
-	c        *replayCase
-	seq      map[string]int
-	failed   []string
-	reached  []string
-	notes    []string
+	c       *replayCase
+	seq     map[string]int
+	failed  []string
+	reached []string
+	notes   []string
 }
 
 var (
@@ -127,7 +130,7 @@ func IteBool(c bool, a, b bool) bool {
 	}
 	return b
 }
-func EqBytes(a, b []byte) bool { return string(a) == string(b) }
+func EqBytes(a, b []byte) bool      { return string(a) == string(b) }
 func AddOverflows(a, b uint64) bool { return a+b < a }
 
 // NondetBytes returns n arbitrary bytes (n concrete).
@@ -200,4 +203,39 @@ func runOne(c *replayCase) (res oneResult) {
 	case <-time.After(20 * time.Second):
 		return oneResult{status: "timeout-or-blocked", failed: st.failed, reached: st.reached}
 	}
+}
+
+// ---------------- channel model (native side) ----------------
+
+var pendingOffers int32
+
+// ChanOffer: another goroutine is blocked sending v on ch.
+func ChanOffer(ch interface{}, v interface{}) {
+	atomic.AddInt32(&pendingOffers, 1)
+	go func() {
+		reflect.ValueOf(ch).Send(reflect.ValueOf(v))
+		atomic.AddInt32(&pendingOffers, -1)
+	}()
+}
+
+// ChanTaker: another goroutine is blocked receiving from ch.
+func ChanTaker(ch interface{}) {
+	go func() { reflect.ValueOf(ch).Recv() }()
+}
+
+func ChanPending(ch interface{}) int  { return int(atomic.LoadInt32(&pendingOffers)) }
+func ChanBuffered(ch interface{}) int { return reflect.ValueOf(ch).Len() }
+
+// CancelWhenIdle returns a context that is cancelled once every offered value has been taken
+// and the receiving loop had time to finish processing it.
+func CancelWhenIdle() context.Context {
+	ctx, cancel := context.WithCancel(context.Background())
+	go func() {
+		for atomic.LoadInt32(&pendingOffers) > 0 {
+			time.Sleep(time.Millisecond)
+		}
+		time.Sleep(50 * time.Millisecond)
+		cancel()
+	}()
+	return ctx
 }
